@@ -644,6 +644,37 @@ def r01_11(run, model):
     run.floor("formatting calls built by the runtime", n, 2)
 
 
+def r01_12(run, model):
+    run.rule("R01.12", "no answer without the sub-term: a function of a rewriting pass (mono, lift, anf, match compiler, Go back end) that is handed "
+                       "a sub-term of the program by parameter does not return before it has looked at that sub-term - a result taken from a "
+                       "cache, a table or another occurrence stands for this occurrence's code, which is then never translated")
+    TY = re.compile(r"^(&(mut)?)?(Box<)?((core|mono|lift|anf|tast|hir)::)?(Expr|MonoExpr|LiftExpr|AExpr|CExpr|ImmExpr)>?$")
+    n = 0
+    for rel in ("crates/compiler/src/lift.rs", "crates/compiler/src/anf.rs", "crates/compiler/src/mono.rs", "crates/compiler/src/compile_match.rs",
+                "crates/compiler/src/go/compile.rs"):
+        for f in model.fns(rel):
+            if f.body is None:
+                continue
+            for p in f.params():
+                if p["self"] or not TY.match((p["ty"] or "").replace(" ", "")):
+                    continue
+                nm = p["pat"].get("name")
+                if not nm or nm.startswith("_"):
+                    continue
+                uses = [x for x in S.walk(f.body) if x["k"] == "Path" and x["segs"] == [nm]]
+                n += 1
+                if not uses:
+                    run.ob("R01.12", f"{f.name}|`{nm}` is looked at", False, site(rel, f.node["sp"]), f"the sub-term `{nm}` is never used")
+                    continue
+                first = min((u["sp"][0], u["sp"][1]) for u in uses)
+                rets = [r for r in S.walk_no_closures(f.body) if r["k"] == "Return" and (r["sp"][0], r["sp"][1]) < first]
+                run.ob("R01.12", f"{f.name}|no return before `{nm}` is looked at", not rets, site(rel, (rets[0] if rets else f.node)["sp"]),
+                       f"{len(rets)} return(s) in front of the first use of `{nm}`",
+                       witness="two different closures `|| a + 1` and `|| b * 2` bound to the same name in one function: the second is answered "
+                               "from the first one's record, its body is never lifted and calling it runs the first closure")
+    run.floor("functions of the rewriting passes that are handed a sub-term", n, 20)
+
+
 def run(run, model):
     run.try_rule(r01_6, model)
     trs = P.discover(model, include_pprint=True)
@@ -654,6 +685,7 @@ def run(run, model):
     run.try_rule(r01_9, model)
     run.try_rule(r01_10, model)
     run.try_rule(r01_11, model)
+    run.try_rule(r01_12, model)
     # which binder a name denotes is part of what the program means (shared with C05 R05.2)
     from rules import c05 as _c05
     run.try_rule(_c05.r05_2, model)
@@ -683,7 +715,7 @@ def run(run, model):
     if mir is not None:
         run.try_rule(c06.r06_1, model, mir)
     for fn_ in (c06.r06_3, c06.r06_4, c06.r06_5, c06.r06_9, c07.r07_1, (lambda r, m: c07.r07_2(r, m, None, "C01")), c07.r07_3, c07.r07_4, c07.r07_5, c07.r07_6,
-                c08.r08_1, c08.r08_2, c08.r08_3, c09.r09_2, c09.r09_4, c09.r09_5, c10.r10_3, c10.r10_8, c02.r02_8):
+                c08.r08_1, c08.r08_2, c08.r08_3, c09.r09_2, c09.r09_4, c09.r09_5, c10.r10_3, c10.r10_8, c10.r10_21, c02.r02_8):
         run.try_rule(fn_, model)
     from rules import c11
     run.rule("R01.7", "a chained tuple projection reads the components the source names (shared with C11 R11.15)")
